@@ -1174,3 +1174,139 @@ Proof.
   - apply fresh_history_from_distinct_hashes_lemma. exact Hnd.
   - split; [split; [apply SInv_init|apply LInv_init]|]. split; [intros rid H; discriminate H|intros rid []].
 Qed.
+
+(** ** C07, clause 5: the destination of an answered request's fee (one model step) *)
+Lemma obal_obs_of_any univ code nc cb s a d :
+  obal (obs_of univ code nc cb s) a d = if existsb (eqb (a, d)) univ then bal (led s) a d else 0.
+Proof.
+  unfold obal, obs_of, getz. cbn [o_bals]. induction univ as [|k0 u IH]; simpl; [reflexivity|].
+  destruct (eq_dec (a, d) k0) as [<-|Hne].
+  - rewrite eqb_refl. reflexivity.
+  - rewrite (proj2 (eqb_false_iff (a, d) k0) Hne). exact IH.
+Qed.
+
+Theorem model_passes_C07_clause_5_lemma :
+  forall c s st univ pcode pnc pcb,
+    0 <= c_tax c ->
+    (forall rid q, get rid (reqs s) = Some q -> 0 <= q_fee q /\ In (TAX, q_fd q) univ /\ In (REQ, q_fd q) univ) ->
+    holds_C07 c (obs_of univ pcode pnc pcb s) st (obs_step univ c s st) <> 5.
+Proof.
+  intros c s st univ pcode pnc pcb Htax Hreq E.
+  apply first_fail_in in E; [|lia]. unfold holds_C07 in E; cbv zeta in E.
+  do 6 (split_seg E; [not_here E|]).
+  destruct st as [txh m| | | | | | | |]; try contradiction E. destruct m; try contradiction E.
+  unfold obs_step, apply in E. cbn [exec_step exec_msg exec_msg_plain] in E.
+  destruct (respond c s rid prov kind) as [s'| |] eqn:Er.
+  2,3: (cbn [obs_of o_code res_code Z.eqb] in E; contradiction E).
+  destruct (respond_ok_lemma c s rid prov kind s' Er) as (q & Hg & Hp & Ha & _ & _ & Htx). cbv zeta in Htx.
+  destruct Htx as (Hrange & Hsend & Hearn & _).
+  destruct (Hreq rid q Hg) as (Hfee & Hut & Hur).
+  set (p := obs_of univ pcode pnc pcb s) in *.
+  set (o := obs_of univ (res_code (Okk s')) (step_newctx s (Tx txh (MRespond rid prov kind)) (Okk s')) (skipn (length (cblog s)) (cblog s')) s') in *.
+  change (o_code o) with 0 in E. cbn [Z.eqb] in E.
+  change (o_reqs p) with (map (fun e : reqid * request => (fst e, req_tuple (snd e))) (reqs s)) in E.
+  rewrite (get_map_val req_tuple), Hg in E. cbn [option_map] in E.
+  change (r_fee (req_tuple q)) with (q_fee q) in E. change (r_fd (req_tuple q)) with (q_fd q) in E.
+  change (o_earned o) with (earned s') in E. change (o_earned p) with (earned s) in E.
+  rewrite <- (tax_of_floor c (q_fee q) Hfee Htax) in E.
+  destruct (send_Some _ _ _ _ _ _ Hsend) as (_ & Hmv & _ & Hoth).
+  destruct Hmv as (Hr & Ht); [unfold REQ, TAX; lia|].
+  subst p o. rewrite !obal_obs_of in E by assumption.
+  destruct E as [E|[E|[E|[E|[]]]]]; injection E as E.
+  - rewrite Hearn in E. replace (getz (prov, q_fd q) (earned s) + (q_fee q - tax_of c (q_fee q)) - getz (prov, q_fd q) (earned s))
+      with (q_fee q - tax_of c (q_fee q)) in E by lia. rewrite Z.eqb_refl in E. discriminate E.
+  - rewrite Ht in E. replace (bal (led s) TAX (q_fd q) + tax_of c (q_fee q) - bal (led s) TAX (q_fd q)) with (tax_of c (q_fee q)) in E by lia.
+    rewrite Z.eqb_refl in E. discriminate E.
+  - rewrite Hr in E. replace (bal (led s) REQ (q_fd q) - (bal (led s) REQ (q_fd q) - tax_of c (q_fee q))) with (tax_of c (q_fee q)) in E by lia.
+    rewrite Z.eqb_refl in E. discriminate E.
+  - refine (eq_true_false_abs _ _ E). apply forallb_forall. intros a Ha0. apply forallb_forall. intros d _.
+    unfold actors_of in Ha0. apply filter_In in Ha0. destruct Ha0 as (_ & Hge). apply Z.leb_le in Hge.
+    rewrite !obal_obs_of_any. destruct (existsb (eqb (a, d)) univ); [|reflexivity]. apply Z.eqb_eq. apply Hoth; intros Ek; inversion Ek; unfold REQ, TAX in *; lia.
+Qed.
+
+(** ** C08, clause 5: the end blocker issues nothing for a paused context (one model step) *)
+Lemma expired_handler_ctx_other c t id' id : id <> id' -> get id (ctxs (expired_batch_handler c t id')) = get id (ctxs t).
+Proof.
+  intros Hne. unfold expired_batch_handler. destruct (get id' (ctxs t)) as [x|] eqn:Eg; [|reflexivity].
+  set (pr := if x_brun x then _ else (t, x)).
+  assert (C : ctxs (fst pr) = ctxs t).
+  { subst pr. destruct (x_brun x); [|reflexivity]. simpl.
+    destruct (expire_fold_qsame c x (filter (fun e => in_batch id' (x_batch x) e && q_active (snd e)) (reqs t)) t) as (C & _).
+    destruct (x_mod x); [|exact C]. destruct (callback_qsame (fold_left (expire_request c x) (filter (fun e => in_batch id' (x_batch x) e && q_active (snd e)) (reqs t)) t) id') as (C2 & _). congruence. }
+  destruct pr as [s1 x1]. simpl in C. cbv zeta.
+  destruct (x_state x1 =? 2); destruct (x_state x1 =? 0); try destruct (x_rep x1 && _); simpl; rewrite ?C;
+    rewrite ?get_del_other, ?get_set_other by exact Hne; reflexivity.
+Qed.
+
+Lemma expired_handler_paused c t id x :
+  get id (ctxs t) = Some x -> x_state x = 1 ->
+  exists x', get id (ctxs (expired_batch_handler c t id)) = Some x' /\ x_state x' = 1 /\ x_batch x' = x_batch x.
+Proof.
+  intros Hg Hs. unfold expired_batch_handler. rewrite Hg.
+  set (pr := if x_brun x then _ else (t, x)).
+  assert (C : ctxs (fst pr) = ctxs t /\ x_state (snd pr) = 1 /\ x_batch (snd pr) = x_batch x).
+  { subst pr. destruct (x_brun x); [|repeat split; assumption]. simpl. split; [|split; [exact Hs|reflexivity]].
+    destruct (expire_fold_qsame c x (filter (fun e => in_batch id (x_batch x) e && q_active (snd e)) (reqs t)) t) as (C & _).
+    destruct (x_mod x); [|exact C]. destruct (callback_qsame (fold_left (expire_request c x) (filter (fun e => in_batch id (x_batch x) e && q_active (snd e)) (reqs t)) t) id) as (C2 & _). congruence. }
+  destruct pr as [s1 x1]. simpl in C. destruct C as (C & S1 & B1). cbv zeta. rewrite S1. simpl.
+  exists x1. rewrite get_set_same. repeat split; assumption.
+Qed.
+
+Lemma new_handler_ctx_other t id' id : id <> id' -> get id (ctxs (new_batch_handler t id')) = get id (ctxs t).
+Proof.
+  intros Hne. unfold new_batch_handler. destruct (get id' (ctxs t)) as [x|] eqn:Eg; [|reflexivity].
+  destruct (x_state x =? 0); [|reflexivity].
+  destruct (filter_provs t x (x_provs x)) as [ps|]; [|simpl; rewrite get_set_other by exact Hne; reflexivity].
+  cbv zeta. destruct (_ && _); [|simpl; rewrite get_set_other by exact Hne; reflexivity].
+  destruct (debit_all _ _ _); [simpl; rewrite get_set_other by exact Hne; reflexivity|].
+  unfold on_paused. destruct (x_mod x); simpl; rewrite get_set_other by exact Hne; reflexivity.
+Qed.
+
+Lemma end_block_paused c s dt id x :
+  get id (ctxs s) = Some x -> x_state x = 1 ->
+  forall x', get id (ctxs (end_block c s dt)) = Some x' -> x_batch x' = x_batch x.
+Proof.
+  intros Hg Hs. unfold end_block. cbv zeta.
+  set (P := fun t : state => forall x', get id (ctxs t) = Some x' -> x_state x' = 1 /\ x_batch x' = x_batch x).
+  set (s1 := fold_left (expired_batch_handler c) _ s).
+  assert (H1 : P s1).
+  { subst s1. apply (fold_left_inv P).
+    - intros t id' Ht x' Hg'. destruct (eq_dec id id') as [<-|Hne].
+      + destruct (get id (ctxs t)) as [x0|] eqn:E0.
+        * destruct (Ht x0 E0) as (S0 & B0). destruct (expired_handler_paused c t id x0 E0 S0) as (x1 & G1 & S1 & B1).
+          rewrite G1 in Hg'. inversion Hg'; subst x'. split; [exact S1|congruence].
+        * unfold expired_batch_handler in Hg'. rewrite E0 in Hg'. rewrite E0 in Hg'. discriminate.
+      + rewrite (expired_handler_ctx_other c t id' id Hne) in Hg'. exact (Ht x' Hg').
+    - intros x' Hg'. rewrite Hg in Hg'. inversion Hg'; subst. split; [exact Hs|reflexivity]. }
+  set (s2 := fold_left new_batch_handler _ s1).
+  assert (H2 : P s2).
+  { subst s2. apply (fold_left_inv P); [|exact H1].
+    intros t id' Ht x' Hg'. destruct (eq_dec id id') as [<-|Hne].
+    - destruct (get id (ctxs t)) as [x0|] eqn:E0.
+      + destruct (Ht x0 E0) as (S0 & B0).
+        destruct (paused_issues_nothing_lemma t id x0 E0) as (_ & _ & C & _); [lia|]. cbv zeta in C. rewrite C, E0 in Hg'.
+        inversion Hg'; subst x'. split; assumption.
+      + unfold new_batch_handler in Hg'. rewrite E0 in Hg'. rewrite E0 in Hg'. discriminate.
+    - rewrite (new_handler_ctx_other t id' id Hne) in Hg'. exact (Ht x' Hg'). }
+  intros x' Hg'. exact (proj2 (H2 x' Hg')).
+Qed.
+
+Theorem model_passes_C08_clause_5_lemma :
+  forall c s st univ seen fired tr sc pcode pnc pcb,
+    NoDup (keys (ctxs s)) ->
+    holds_C08 seen fired tr sc (obs_of univ pcode pnc pcb s) st (obs_step univ c s st) <> 5.
+Proof.
+  intros c s st univ seen fired tr sc pcode pnc pcb Hk E.
+  apply first_fail_in in E; [|lia]. unfold holds_C08 in E; cbv zeta in E.
+  do 7 (split_seg E; [not_here E|]). split_seg E; [|not_here E].
+  destruct st as [|dt| | | | | | |]; try contradiction E. cbn [is_endblock] in E.
+  split_seg E; [not_here E|].
+  apply in_map_iff in E. destruct E as ([id xt] & E & Hin). injection E as E.
+  destruct (in_obs_ctxs univ _ _ _ s _ Hk Hin) as (x & Hg & Ex). cbn [fst snd] in Hg, Ex. subst xt.
+  unfold obs_step in E. cbn [obs_of o_ctxs] in E. rewrite (get_map_val ctx_tuple) in E. cbn [ctx_tuple t_state t_batch] in E.
+  destruct (x_state x =? 1) eqn:Es; [|discriminate E]. apply Z.eqb_eq in Es. cbn [negb orb] in E.
+  unfold apply in E. cbn [exec_step] in E. destruct (0 <=? dt).
+  - destruct (get id (ctxs (end_block c s dt))) as [x'|] eqn:Eg'; cbn [option_map] in E; [|discriminate E].
+    cbn [ctx_tuple t_batch] in E. rewrite (end_block_paused c s dt id x Hg Es x' Eg'), Z.eqb_refl in E. discriminate E.
+  - rewrite Hg in E. cbn [option_map ctx_tuple t_batch] in E. rewrite Z.eqb_refl in E. discriminate E.
+Qed.
